@@ -615,8 +615,13 @@ class ArrayTwin:
         orig = it.call
         me = self
 
-        def box(v):
+        def box(v, memo=None):
             if isinstance(v, X.Node) and concrete(v) is None:
+                # one array object per distinct argument value: where the scalar call hands the very same number to two parameters (spin given as the mean motion
+                # itself) the array call hands over the very same array, so that identity tests (`a is b`) come out alike in both
+                if memo is not None:
+                    if v.uid not in memo: memo[v.uid] = ArrBox(v)
+                    return memo[v.uid]
                 return ArrBox(v)
             return v
 
@@ -670,7 +675,8 @@ class ArrayTwin:
                     expected = resub(out)
                 else:
                     pargs = list(args); pkw = dict(kwargs); expected = out
-                bargs = [box(v) for v in pargs]; bkw = {kk: box(v) for kk, v in pkw.items()}
+                bmemo = {}
+                bargs = [box(v, bmemo) for v in pargs]; bkw = {kk: box(v, bmemo) for kk, v in pkw.items()}
                 boxes = [(f'argument {i + 1}', o, b) for i, (o, b) in enumerate(zip(pargs, bargs)) if b is not o] + [(f'argument {kk}', pkw[kk], bkw[kk]) for kk in pkw if bkw[kk] is not pkw[kk]]
                 rec = me.res.setdefault((mod.rel(), fnode.name), [0, [], mod.where(fnode)])
                 if not boxes:
